@@ -414,6 +414,46 @@ def _task_c(args):
                              "signature": f"c:eofbehind:{len(names)}",
                              "detail": f"[{names} in {len(cuts0) + 1} read(s), end of stream right behind] delivered sids {[g[7][0][4] for g in got]}, sent {[e[7][0][4] for e in exp_head]} ({o.end_reason})",
                              "case": {"part": "c", "eof_behind": names, "cuts": list(cuts0), "seed": seed}})
+    # a reconnection started by a failing write while the old port's read side is still up: bytes that still arrive on the old
+    # handle do not belong to the new connection's stream
+    for stale in (b"", its["P2"][:5], its["N19"], its["P2"][:12]):
+        for cuts1 in ((), tuple(range(7, len(tail), 7)), (13,)):
+            def arm(sess):
+                sess.gw.write_error_sync = True
+                sess.gw.write_error = lambda: RuntimeError("unable to perform operation on the transport (injected, write only)")
+                sess.gw.fail_write_armed = True
+                return True
+
+            def feed_old(sess, data=stale):
+                if len(sess.gw.conns) < 2 or sess.client.state != vloop.State.CONNECTED:
+                    return False
+                if data:
+                    sess.env(sess.gw.conns[0].transport.env_feed, data)
+                return True
+
+            def feed_new(chunk):
+                def item(sess):
+                    if len(sess.gw.conns) < 2 or sess.client.state != vloop.State.CONNECTED:
+                        return False
+                    sess.env(sess.gw.conns[1].transport.env_feed, chunk)
+                    return True
+                return item
+            chunks = split(tail, cuts1)
+            script = [it_connect, vloop.it_feed(its["P1"], 0), arm, vloop.it_send(lambda: clientkit.heading_message(33))]
+            script += [feed_new(chunks[0]), feed_old] + [feed_new(ch) for ch in chunks[1:]]
+            s = vloop.Session(kind=KIND, script=script)
+            s.pending_log = []
+            o = s.run()
+            runs += 1
+            got = [v for _, v in o.received]
+            exp = [view_of(dec, its["P1"])] + exp_tail
+            outcomes.add(len(got))
+            if o.end_reason != "quiescent" or not o.flags.get("script_done") or got != exp:
+                vios.append({"kind": "packet_lost" if len(got) < len(exp) else "unexpected_delivery", "facts": {"part": "c", "mechanism": "old_connection_still_read"},
+                             "signature": f"c:wfail:{len(stale)}",
+                             "detail": f"[reconnection after a failing write; {len(stale)} stale bytes arrive on the old port while the new connection carries {tail_names} cut at {list(cuts1)[:4]}] "
+                                       f"delivered sids {[g[7][0][4] for g in got]}, sent {[e[7][0][4] for e in exp]} ({o.end_reason}, {o.flags})",
+                             "case": {"part": "c", "wfail": len(stale), "cuts": list(cuts1), "seed": seed}})
     return {"runs": runs, "nontrivial": runs, "outcomes": len(outcomes), "vios": vios[:40], "sample": sample, "streams": len(heads) * len(victims) * 19}
 
 
@@ -501,6 +541,8 @@ def replay(ctx, rep):
         return [{"kind": k, "facts": f, "detail": d, "case": c} for k, f, d in judge(seq, its, s, o, make_plan(seq, its))]
     if c["part"] == "c":
         r = _task_c((c.get("seed", 0),))
+        if "wfail" in c:
+            return [v for v in r["vios"] if v["case"].get("wfail") == c["wfail"] and v["case"]["cuts"] == c["cuts"]][:1]
         if "eof_behind" in c:
             return [v for v in r["vios"] if v["case"].get("eof_behind") == c["eof_behind"] and v["case"]["cuts"] == c["cuts"]][:1]
         return [v for v in r["vios"] if all(v["case"].get(k) == c[k] for k in ("head", "victim", "j", "how", "cuts"))][:1] or r["vios"][:1]
